@@ -92,6 +92,10 @@ func c07Struct(args []string) {
 				var rxIn int64
 				if c.inOrder {
 					rxIn = c.lastRX + 1 + rng.Int64N(1000)
+					if rng.IntN(3) == 0 {
+						// equal receive timestamps (a coarse timestamp source) are in timestamp order too
+						rxIn = c.lastRX
+					}
 					if c.lastRX == 0 {
 						rxIn = base + rng.Int64N(1e6)
 					}
